@@ -48,7 +48,7 @@ import (
 // off the error.  Both only label the evidence.
 
 func c05HistCases(tier string) int  { return pick(tier, 1200, 40000) }
-func c05SweepCases(tier string) int { return pick(tier, 224, 8000) }
+func c05SweepCases(tier string) int { return pick(tier, 256, 8000) }
 
 const c05SweepWidth = 13
 
